@@ -242,7 +242,7 @@ Section Refine.
   Lemma Inv0 : Inv sst0 [].
   Proof. split; simpl; intro; discriminate. Qed.
 
-  Definition stream_events (t : text) : list event := snd (sfold sst0 t).
+  Notation stream_events := (stream_events parse_ok exits).
 
   Lemma pipe_cut_stream : forall cs, no_empty cs ->
     cut (pipe_events parse_ok exits cs) = cut (stream_events (concat cs)).
